@@ -154,6 +154,14 @@ elif w.get("op") == "assemble":
         want = sorted(tuple(sorted(p_)) for p_ in (("C", "Si"), ("Si", "P"), ("C", "N"), ("Si", "O"), ("P", "F")))
         if got != want:
             bad.append(f"molli combine put the substituents on the wrong attachment points: bonds {got}, expected {want}")
+        # only the attachment points the user selected (-a): the second and third; the first one stays free
+        res = fn(core, aps[1:], [subs[:2]], hadd=False)
+        prod = list(res.values())[0]
+        sym = lambda a: a.element.symbol if a.element != ml.Element.Unknown else "X"
+        got = sorted(tuple(sorted((sym(b.a1), sym(b.a2)))) for b in prod.bonds)
+        want = sorted(tuple(sorted(p_)) for p_ in (("C", "Si"), ("Si", "P"), ("C", "X"), ("Si", "N"), ("P", "O")))
+        if got != want:
+            bad.append(f"molli combine with a subset of the attachment points: bonds {got}, expected {want}")
     except BaseException as ex:
         bad.append(f"_ml_assemble raised {type(ex).__name__}: {ex}")
 elif w.get("op") == "purity":
